@@ -3,6 +3,9 @@ import PjVerif.Spec.Clone
 import PjVerif.Lemmas.GraphTasks
 namespace Pj
 
+/-- `omega` does not look through the abbreviation `Uid := Nat` in instance arguments -/
+macro "uomega" : tactic => `(tactic| ((try simp only [Uid] at *); omega))
+
 /-! ### `seqOps` -/
 
 theorem seqOps_cons_err (f : G → G × Option Err) (fs : List (G → G × Option Err)) (s s' : G) (e : Err)
@@ -203,5 +206,811 @@ theorem seqOps_n_tid (s : G) (w : Uid) (roots sel : List Uid) (s0 : G) :
   intro f hf g hg
   obtain ⟨h1, h2⟩ := cloneOps_n_tid s w roots sel f hf g
   exact ⟨h1.trans hg.1, h2.trans hg.2⟩
+
+/-! ### `extend` preserves the invariant -/
+
+theorem not_hidden_of_ge (s : G) (hi : Inv s) (u : Uid) (hu : s.n ≤ u) : s.hidden u = false := by
+  cases h : s.hidden u with
+  | false => rfl
+  | true =>
+    have := (hi.bnd.owner u u (hi.own.root u h)).1
+    uomega
+
+theorem parent_none_of_ge (s : G) (hb : Bounded s) (u : Uid) (hu : s.n ≤ u) : s.parent u = none := by
+  cases h : s.parent u with
+  | none => rfl
+  | some p => have := (hb.parent u p h).1; uomega
+
+theorem extend_hidden_lt (s : G) (sel : List Uid) (u : Uid) (hu : u < s.n) :
+    (extend s sel).hidden u = s.hidden u := by
+  unfold G.hidden; rw [extend_tid_lt s sel u hu]
+
+theorem extend_hidden_clone (s : G) (sel : List Uid) (hsel : ∀ t ∈ sel, s.hidden t = false) (i : Nat)
+    (hi : i < sel.length) : (extend s sel).hidden (s.n + i) = false := by
+  unfold G.hidden; rw [extend_tid_clone s sel i hi, getD_eq_getElem' sel i hi]
+  exact hsel _ (List.getElem_mem hi)
+
+theorem extend_hidden_root (s : G) (sel : List Uid) : (extend s sel).hidden (s.n + sel.length) = true := by
+  unfold G.hidden; rw [extend_tid_root]; simp
+
+theorem extend_hidden_gt (s : G) (sel : List Uid) (u : Uid) (hu : s.n + sel.length < u) :
+    (extend s sel).hidden u = s.hidden u := by
+  have h1 : ¬ u < s.n := by uomega
+  have h2 : ¬ u < s.n + sel.length := by uomega
+  have h3 : ¬ u = s.n + sel.length := by uomega
+  simp [G.hidden, extend, h1, h2, h3]
+
+/-- hidden status in the extended universe -/
+theorem extend_hidden_cases (s : G) (sel : List Uid) (hi : Inv s) (hsel : ∀ t ∈ sel, s.hidden t = false) (u : Uid) :
+    (u < s.n ∧ (extend s sel).hidden u = s.hidden u) ∨
+    (s.n ≤ u ∧ u ≠ s.n + sel.length ∧ (extend s sel).hidden u = false) ∨
+    (u = s.n + sel.length ∧ (extend s sel).hidden u = true) := by
+  by_cases h1 : u < s.n
+  · exact Or.inl ⟨h1, extend_hidden_lt s sel u h1⟩
+  · by_cases h2 : u < s.n + sel.length
+    · refine Or.inr (Or.inl ⟨by uomega, by uomega, ?_⟩)
+      have : u = s.n + (u - s.n) := by uomega
+      rw [this]; exact extend_hidden_clone s sel hsel _ (by uomega)
+    · by_cases h3 : u = s.n + sel.length
+      · exact Or.inr (Or.inr ⟨h3, h3 ▸ extend_hidden_root s sel⟩)
+      · refine Or.inr (Or.inl ⟨by uomega, h3, ?_⟩)
+        rw [extend_hidden_gt s sel u (by uomega)]
+        exact not_hidden_of_ge s hi u (by uomega)
+
+theorem extend_owner (s : G) (sel : List Uid) (u : Uid) :
+    (extend s sel).owner u = if u = s.n + sel.length then some (s.n + sel.length) else s.owner u := rfl
+
+theorem extend_Inv (s : G) (sel : List Uid) (hi : Inv s) (hsel : ∀ t ∈ sel, s.hidden t = false) :
+    Inv (extend s sel) := by
+  have hpar : par (extend s sel) = par s := rfl
+  have hge : ∀ u, s.n ≤ u → s.parent u = none ∧ s.preds u = [] ∧ s.succs u = [] ∧ s.owner u = none := by
+    intro u hu
+    refine ⟨parent_none_of_ge s hi.bnd u hu, ?_, ?_, ?_⟩
+    · cases h : s.preds u with
+      | nil => rfl
+      | cons a l => have := (hi.bnd.preds u a (h ▸ List.mem_cons_self)).1; uomega
+    · cases h : s.succs u with
+      | nil => rfl
+      | cons a l => have := (hi.bnd.succs u a (h ▸ List.mem_cons_self)).1; uomega
+    · cases h : s.owner u with
+      | none => rfl
+      | some x => have := (hi.bnd.owner u x h).1; uomega
+  refine ⟨⟨hi.wf.listed, hi.wf.once, hi.wf.forest, ?_, hi.wf.sym, hi.wf.dag, hi.wf.noAncDep⟩, ⟨?_, ?_, ?_, ?_⟩, ?_, ⟨?_, ?_, ?_, ?_, ?_⟩⟩
+  · -- rootsTop
+    intro r hr
+    show s.parent r = none ∧ s.preds r = [] ∧ s.succs r = []
+    by_cases h1 : r < s.n
+    · rw [extend_hidden_lt s sel r h1] at hr
+      exact hi.wf.rootsTop r hr
+    · obtain ⟨a, b, c, _⟩ := hge r (by uomega)
+      exact ⟨a, b, c⟩
+  · -- inherit
+    intro t p hp
+    have hp' : s.parent t = some p := hp
+    obtain ⟨h1, h2⟩ := hi.bnd.parent t p hp'
+    rw [extend_owner, extend_owner, if_neg (by uomega), if_neg (by uomega)]
+    exact hi.own.inherit t p hp'
+  · -- root
+    intro r hr
+    rcases extend_hidden_cases s sel hi hsel r with ⟨h1, h2⟩ | ⟨_, _, h2⟩ | ⟨h1, _⟩
+    · rw [h2] at hr
+      rw [extend_owner, if_neg (by uomega)]
+      exact hi.own.root r hr
+    · rw [h2] at hr; cases hr
+    · rw [extend_owner, if_pos h1, h1]
+  · -- free
+    intro t hp hh
+    have hp' : s.parent t = none := hp
+    rcases extend_hidden_cases s sel hi hsel t with ⟨h1, h2⟩ | ⟨h1, h3, _⟩ | ⟨_, h2⟩
+    · rw [h2] at hh
+      rw [extend_owner, if_neg (by uomega)]
+      exact hi.own.free t hp' hh
+    · rw [extend_owner, if_neg h3]
+      exact (hge t h1).2.2.2
+    · rw [h2] at hh; cases hh
+  · -- isRoot
+    intro t w ho
+    rw [extend_owner] at ho
+    split at ho
+    · cases ho; exact extend_hidden_root s sel
+    · have := hi.bnd.owner t w ho
+      rw [extend_hidden_lt s sel w this.2]
+      exact hi.own.isRoot t w ho
+  · -- UniqueIds
+    intro a b hab ha hb hst
+    obtain ⟨r, h1, h2⟩ := hst
+    rw [hpar] at h1 h2
+    have hlt : ∀ x y, x ≠ y → RTC (par s) x r → RTC (par s) y r → x < s.n := by
+      intro x y hxy hx hy
+      rcases hx.cases_eq_or_TC with e | e
+      · subst e
+        rcases hy.cases_eq_or_TC with e' | e'
+        · exact absurd e'.symm hxy
+        · rcases e'.tail_cases with h | ⟨z, _, h⟩
+          · exact (hi.bnd.parent _ _ h).2
+          · exact (hi.bnd.parent _ _ h).2
+      · rcases e.head_cases with h | ⟨z, h, _⟩
+        · exact (hi.bnd.parent _ _ h).1
+        · exact (hi.bnd.parent _ _ h).1
+    have ha' := hlt a b hab h1 h2
+    have hb' := hlt b a (Ne.symm hab) h2 h1
+    rw [extend_hidden_lt s sel a ha'] at ha
+    rw [extend_hidden_lt s sel b hb'] at hb
+    rw [extend_tid_lt s sel a ha', extend_tid_lt s sel b hb']
+    exact hi.ids a b hab ha hb ⟨r, h1, h2⟩
+  · intro u p h
+    have := hi.bnd.parent u p h
+    show u < s.n + sel.length + 1 ∧ p < s.n + sel.length + 1
+    uomega
+  · intro u c h
+    have := hi.bnd.children u c h
+    show u < s.n + sel.length + 1 ∧ c < s.n + sel.length + 1
+    uomega
+  · intro u c h
+    have := hi.bnd.preds u c h
+    show u < s.n + sel.length + 1 ∧ c < s.n + sel.length + 1
+    uomega
+  · intro u c h
+    have := hi.bnd.succs u c h
+    show u < s.n + sel.length + 1 ∧ c < s.n + sel.length + 1
+    uomega
+  · intro u x h
+    show u < s.n + sel.length + 1 ∧ x < s.n + sel.length + 1
+    rw [extend_owner] at h
+    split at h
+    · cases h; uomega
+    · have := hi.bnd.owner u x h
+      uomega
+
+/-! ### every setter call preserves the invariant -/
+
+/-- the facts carried along the sequence: invariant, universe and ids of the extended state -/
+def CInv (s : G) (sel : List Uid) (g : G) : Prop :=
+  Inv g ∧ g.n = s.n + sel.length + 1 ∧ g.tid = (extend s sel).tid
+
+theorem CInv.hidden {s : G} {sel : List Uid} {g : G} (h : CInv s sel g) (u : Uid) :
+    g.hidden u = (extend s sel).hidden u := hidden_of_tid _ _ h.2.2 u
+
+theorem CInv.clone {s : G} {sel : List Uid} {g : G} (h : CInv s sel g) (hsel : ∀ t ∈ sel, s.hidden t = false)
+    {c : Uid} (hc : IsClone s sel c) : g.hidden c = false ∧ c < g.n := by
+  obtain ⟨i, hi, rfl⟩ := hc
+  rw [h.hidden, h.2.1]
+  exact ⟨extend_hidden_clone s sel hsel i hi, by uomega⟩
+
+theorem CInv.outside {s : G} {sel : List Uid} {g : G} (h : CInv s sel g) {w v : Uid} (hv : Outside s w v) :
+    g.hidden v = false ∧ v < g.n := by
+  rw [h.hidden, h.2.1, extend_hidden_lt s sel v hv.1]
+  exact ⟨hv.2.2, by have := hv.1; uomega⟩
+
+theorem OpKind.cinv {s : G} {w : Uid} {sel : List Uid} {f : G → G × Option Err} (k : OpKind s w sel f)
+    (hsel : ∀ t ∈ sel, s.hidden t = false) (g : G) (h : CInv s sel g) : CInv s sel (f g).1 := by
+  cases k with
+  | par c p hc hp =>
+    have := h.clone hsel hc
+    exact ⟨setParent_Inv g c p h.1 this.1 this.2 (fun q hq => (h.clone hsel (hp q hq)).2),
+      (setParent_n _ _ _).trans h.2.1, (setParent_tid _ _ _).trans h.2.2⟩
+  | chi c l hc hl =>
+    have hcn : c < g.n := by
+      rcases hc with hc | hc
+      · exact (h.clone hsel hc).2
+      · rw [h.2.1]; uomega
+    exact ⟨setChildren_Inv g c l h.1 (fun v hv => (h.clone hsel (hl v hv)).1) hcn
+        (fun v hv => (h.clone hsel (hl v hv)).2),
+      (setChildren_n _ _ _).trans h.2.1, (setChildren_tid _ _ _).trans h.2.2⟩
+  | prd c l hc hl =>
+    have := h.clone hsel hc
+    have hl' : ∀ v ∈ l, g.hidden v = false ∧ v < g.n := by
+      intro v hv
+      rcases hl v hv with hv | hv
+      · exact h.clone hsel hv
+      · exact h.outside hv
+    exact ⟨setPreds_Inv g c l h.1 this.1 (fun v hv => (hl' v hv).1) this.2 (fun v hv => (hl' v hv).2),
+      (setPreds_n _ _ _).trans h.2.1, (setPreds_tid _ _ _).trans h.2.2⟩
+  | suc c l hc hl =>
+    have := h.clone hsel hc
+    have hl' : ∀ v ∈ l, g.hidden v = false ∧ v < g.n := by
+      intro v hv
+      rcases hl v hv with hv | hv
+      · exact h.clone hsel hv
+      · exact h.outside hv
+    exact ⟨setSuccs_Inv g c l h.1 this.1 (fun v hv => (hl' v hv).1) this.2 (fun v hv => (hl' v hv).2),
+      (setSuccs_n _ _ _).trans h.2.1, (setSuccs_tid _ _ _).trans h.2.2⟩
+
+theorem CInv.extend (s : G) (sel : List Uid) (hi : Inv s) (hsel : ∀ t ∈ sel, s.hidden t = false) :
+    CInv s sel (extend s sel) := ⟨extend_Inv s sel hi hsel, rfl, rfl⟩
+
+/-! ### the selection -/
+
+/-- the selected tasks are the roots and everything below them -/
+theorem mem_sel_iff (s : G) (hw : WF s) (roots : List Uid) (subs : List (List Uid))
+    (h : roots.mapM (fun r => subtreeF s.children s.fuel r) = some subs) (x : Uid) :
+    x ∈ dedupFirst subs.flatten ↔ ∃ r ∈ roots, RTC (par s) x r := by
+  unfold dedupFirst
+  rw [List.mem_eraseDups]
+  exact subtreeF_flatten_mem s hw.listed s.fuel roots subs h x
+
+theorem sel_visible (s : G) (w : Uid) (hi : Inv s) (roots : List Uid) (subs : List (List Uid))
+    (h : roots.mapM (fun r => subtreeF s.children s.fuel r) = some subs)
+    (hm : ∀ r ∈ roots, s.owner r = some w ∧ s.hidden r = false) :
+    ∀ t ∈ dedupFirst subs.flatten, s.hidden t = false := by
+  intro t ht
+  obtain ⟨r, hr, hx⟩ := (mem_sel_iff s hi.wf roots subs h t).mp ht
+  exact below_not_hidden s hi.wf (hm r hr).2 hx
+
+theorem cloneSel_CInv (s : G) (w : Uid) (roots : List Uid) (subs : List (List Uid)) (hi : Inv s)
+    (h : roots.mapM (fun r => subtreeF s.children s.fuel r) = some subs)
+    (hm : ∀ r ∈ roots, s.owner r = some w ∧ s.hidden r = false) :
+    CInv s (dedupFirst subs.flatten) (cloneSel s w roots).1 := by
+  rw [cloneSel_eq s w roots subs h]
+  have hsel := sel_visible s w hi roots subs h hm
+  refine seqOps_preserves (CInv s (dedupFirst subs.flatten)) _ _ ?_ (CInv.extend s _ hi hsel)
+  intro f hf g hg
+  exact (cloneOps_kind s w roots _ hi f hf).cinv hsel g hg
+
+theorem cloneSel_Inv (s : G) (w : Uid) (roots : List Uid) (hi : Inv s)
+    (hm : ∀ r ∈ roots, s.owner r = some w ∧ s.hidden r = false) : Inv (cloneSel s w roots).1 := by
+  cases h : roots.mapM (fun r => subtreeF s.children s.fuel r) with
+  | none => rw [cloneSel_none s w roots h]; exact hi
+  | some subs => exact (cloneSel_CInv s w roots subs hi h hm).1
+
+/-! ### frame: what the setter calls cannot touch
+
+  All hierarchy arguments of the calls are fresh uids (`≥ N`, with `N` the size of the source universe).  The fresh
+  part of the state is closed under parent, children and owner, so no hierarchy field of an old uid changes. -/
+
+structure HFrame (N : Nat) (s g : G) : Prop where
+  parent : ∀ u, u < N → g.parent u = s.parent u
+  children : ∀ u, u < N → g.children u = s.children u
+  owner : ∀ u, u < N → g.owner u = s.owner u
+  parentUp : ∀ u p, N ≤ u → g.parent u = some p → N ≤ p
+  childDown : ∀ u x, N ≤ u → x ∈ g.children u → N ≤ x
+  ownerUp : ∀ u x, N ≤ u → g.owner u = some x → N ≤ x
+
+theorem setParentSome_cases (g : G) (c q : Uid) :
+    setParentSome g c q = (g, (setParentSome g c q).2) ∨
+    ∃ sub, subtreeF g.children g.fuel c = some sub ∧
+      setParentSome g c q = (appStep (ownStep (parStep (detachOld g c) c q) sub q) c q, none) := by
+  unfold setParentSome
+  split
+  · exact Or.inl rfl
+  · rw [mutParentSome_eq]
+    split
+    · exact Or.inl rfl
+    · rename_i sub hsub
+      exact Or.inr ⟨sub, hsub, rfl⟩
+
+theorem detachOld_children_other (g : G) (c u : Uid) (h : g.parent c ≠ some u) :
+    (detachOld g c).children u = g.children u := by
+  unfold detachOld
+  split
+  · rename_i q hq
+    split
+    · have : u ≠ q := fun e => h (e ▸ hq)
+      simp [this]
+    · rfl
+  · rfl
+
+theorem detachOld_children_sub (g : G) (c u x : Uid) (h : x ∈ (detachOld g c).children u) : x ∈ g.children u := by
+  unfold detachOld at h
+  split at h
+  · rename_i q hq
+    split at h
+    · by_cases e : u = q
+      · subst e
+        simp only [upd_same] at h
+        exact List.mem_of_mem_erase h
+      · simpa [e] using h
+    · exact h
+  · exact h
+
+theorem appStep_children_other (s3 : G) (t p u : Uid) (h : u ≠ p) : (appStep s3 t p).children u = s3.children u := by
+  unfold appStep
+  split
+  · rfl
+  · simp [h]
+
+theorem TC_closed (next : Uid → List Uid) (P : Uid → Prop) (hP : ∀ a b, P a → b ∈ next a → P b) {c x : Uid}
+    (h : TC (fun a b => b ∈ next a) c x) (hc : P c) : P x := by
+  induction h with
+  | single h => exact hP _ _ hc h
+  | tail _ h ih => exact hP _ _ ih h
+
+theorem subtreeF_closed (next : Uid → List Uid) (P : Uid → Prop) (hP : ∀ a b, P a → b ∈ next a → P b)
+    (f : Nat) (c : Uid) (sub : List Uid) (h : subtreeF next f c = some sub) (hc : P c) : ∀ x ∈ sub, P x := by
+  simp only [subtreeF, Option.map_eq_some_iff] at h
+  obtain ⟨d, hd, rfl⟩ := h
+  intro x hx
+  rcases List.mem_cons.mp hx with rfl | hx
+  · exact hc
+  · exact TC_closed next P hP (descF_sound next f c d hd x hx) hc
+
+theorem HFrame.setParentSome {N : Nat} {s g : G} (hf : HFrame N s g) (c q : Uid) (hc : N ≤ c) (hq : N ≤ q) :
+    HFrame N s (setParentSome g c q).1 := by
+  rcases setParentSome_cases g c q with h | ⟨sub, hsub, h⟩
+  · rw [h]; exact hf
+  · rw [h]
+    have hsubN : ∀ x ∈ sub, N ≤ x :=
+      subtreeF_closed g.children (fun x => N ≤ x) (fun a b ha hb => hf.childDown a b ha hb) _ c sub hsub hc
+    have hpar : (appStep (ownStep (parStep (detachOld g c) c q) sub q) c q).parent = upd g.parent c (some q) := by
+      rw [(appStep_fields _ _ _).1, (ownStep_fields _ _ _).1, (parStep_fields _ _ _).1, (detachOld_fields g c).1]
+    have hown : ∀ x, (appStep (ownStep (parStep (detachOld g c) c q) sub q) c q).owner x =
+        match g.owner q with
+        | none => g.owner x
+        | some w => if sub.contains x then some w else g.owner x := by
+      intro x
+      rw [appStep_owner, ownStep_owner]
+      have hbase : (parStep (detachOld g c) c q).owner = g.owner := (detachOld_fields g c).2.2.2.2
+      rw [hbase]
+      rfl
+    have hch : ∀ u x, x ∈ (appStep (ownStep (parStep (detachOld g c) c q) sub q) c q).children u →
+        x ∈ g.children u ∨ (x = c ∧ u = q) := by
+      intro u x hx
+      rcases (mem_appStep _ _ _ _ _).mp hx with hx | hx
+      · rw [(ownStep_fields _ _ _).2.1, (parStep_fields _ _ _).2.1] at hx
+        exact Or.inl (detachOld_children_sub g c u x hx)
+      · exact Or.inr hx
+    refine ⟨?_, ?_, ?_, ?_, ?_, ?_⟩
+    · intro u hu
+      rw [hpar, upd_other _ _ _ _ (by uomega)]
+      exact hf.parent u hu
+    · intro u hu
+      rw [appStep_children_other _ _ _ _ (by uomega), (ownStep_fields _ _ _).2.1, (parStep_fields _ _ _).2.1,
+        detachOld_children_other g c u]
+      · exact hf.children u hu
+      · intro hp
+        have := hf.parentUp c u hc hp
+        uomega
+    · intro u hu
+      rw [hown]
+      split
+      · exact hf.owner u hu
+      · have : sub.contains u = false := by
+          cases hcu : sub.contains u with
+          | false => rfl
+          | true =>
+            have := hsubN u (by simpa using hcu)
+            uomega
+        rw [this]
+        exact hf.owner u hu
+    · intro u p hu hp
+      rw [hpar] at hp
+      by_cases e : u = c
+      · subst e
+        rw [upd_same] at hp
+        cases hp; exact hq
+      · rw [upd_other _ _ _ _ e] at hp
+        exact hf.parentUp u p hu hp
+    · intro u x hu hx
+      rcases hch u x hx with hx | ⟨rfl, _⟩
+      · exact hf.childDown u x hu hx
+      · exact hc
+    · intro u x hu hx
+      rw [hown] at hx
+      split at hx
+      · exact hf.ownerUp u x hu hx
+      · rename_i w' hw'
+        split at hx
+        · cases hx; exact hf.ownerUp q _ hq hw'
+        · exact hf.ownerUp u x hu hx
+
+theorem HFrame.setParentNone {N : Nat} {s g : G} (hf : HFrame N s g) (c : Uid) (hc : N ≤ c) :
+    HFrame N s (setParentNone g c).1 := by
+  unfold Pj.setParentNone
+  split
+  · rename_i w' hw'
+    exact hf.setParentSome c w' hc (hf.ownerUp c w' hc hw')
+  · refine ⟨?_, ?_, ?_, ?_, ?_, ?_⟩
+    · intro u hu
+      show upd (detachOld g c).parent c none u = _
+      rw [upd_other _ _ _ _ (by uomega), (detachOld_fields g c).1]
+      exact hf.parent u hu
+    · intro u hu
+      show (detachOld g c).children u = _
+      rw [detachOld_children_other g c u]
+      · exact hf.children u hu
+      · intro hp
+        have := hf.parentUp c u hc hp
+        uomega
+    · intro u hu
+      show (detachOld g c).owner u = _
+      rw [(detachOld_fields g c).2.2.2.2]
+      exact hf.owner u hu
+    · intro u p hu hp
+      have hp' : upd (detachOld g c).parent c none u = some p := hp
+      by_cases e : u = c
+      · subst e; rw [upd_same] at hp'; cases hp'
+      · rw [upd_other _ _ _ _ e, (detachOld_fields g c).1] at hp'
+        exact hf.parentUp u p hu hp'
+    · intro u x hu hx
+      exact hf.childDown u x hu (detachOld_children_sub g c u x hx)
+    · intro u x hu hx
+      have hx' : (detachOld g c).owner u = some x := hx
+      rw [(detachOld_fields g c).2.2.2.2] at hx'
+      exact hf.ownerUp u x hu hx'
+
+theorem HFrame.setParent {N : Nat} {s g : G} (hf : HFrame N s g) (c : Uid) (p : Option Uid) (hc : N ≤ c)
+    (hp : ∀ q, p = some q → N ≤ q) : HFrame N s (setParent g c p).1 := by
+  unfold Pj.setParent
+  cases p with
+  | none => exact hf.setParentNone c hc
+  | some q => exact hf.setParentSome c q hc (hp q rfl)
+
+theorem HFrame.foldSetParent {N : Nat} {s : G} (h : Uid) (hh : N ≤ h) :
+    ∀ (l : List Uid) (g : G), HFrame N s g → (∀ v ∈ l, N ≤ v) → HFrame N s (foldSetParent g l h).1 := by
+  intro l
+  induction l with
+  | nil => intro g hf _; exact hf
+  | cons v vs ih =>
+    intro g hf hl
+    have h1 := hf.setParent v (some h) (hl v List.mem_cons_self) (fun q hq => by cases hq; exact hh)
+    unfold Pj.foldSetParent
+    rcases hsp : Pj.setParent g v (some h) with ⟨g', e⟩
+    rw [hsp] at h1
+    cases e with
+    | some e => exact h1
+    | none => exact ih g' h1 (fun v' hv' => hl v' (List.mem_cons_of_mem _ hv'))
+
+theorem releaseChildren_cases (g : G) (h : Uid) (l : List Uid) :
+    releaseChildren g h l = (g, some (.crash .recursion)) ∨
+    ∃ subs, ((g.children h).filter (fun v => !l.contains v)).mapM (subtreeF g.children g.fuel) = some subs ∧
+      releaseChildren g h l =
+        (⟨g.n, g.tid, fun x => if (g.children h).contains x then none else g.parent x, upd g.children h [],
+          g.preds, g.succs, fun x => if subs.flatten.contains x then none else g.owner x⟩, none) := by
+  cases hm : ((g.children h).filter (fun v => !l.contains v)).mapM (subtreeF g.children g.fuel) with
+  | none =>
+    left
+    unfold releaseChildren
+    simp only [hm]
+  | some subs =>
+    right
+    refine ⟨subs, rfl, ?_⟩
+    unfold releaseChildren
+    simp only [hm]
+    rfl
+
+theorem HFrame.releaseChildren {N : Nat} {s g : G} (hf : HFrame N s g) (h : Uid) (l : List Uid) (hh : N ≤ h) :
+    HFrame N s (releaseChildren g h l).1 := by
+  rcases releaseChildren_cases g h l with he | ⟨subs, hsubs, he⟩
+  · rw [he]; exact hf
+  · rw [he]
+    have hold : ∀ x, (g.children h).contains x = true → N ≤ x := by
+      intro x hx
+      exact hf.childDown h x hh (by simpa using hx)
+    have hsubN : ∀ x, subs.flatten.contains x = true → N ≤ x := by
+      intro x hx
+      have hx' : x ∈ subs.flatten := by simpa using hx
+      obtain ⟨sub, hsub, hxs⟩ := List.mem_flatten.mp hx'
+      obtain ⟨v, hv, hvs⟩ := mapM_some_mem_inv _ _ _ hsubs sub hsub
+      have hvN : N ≤ v := hf.childDown h v hh (List.mem_filter.mp hv).1
+      exact subtreeF_closed g.children (fun x => N ≤ x) (fun a b ha hb => hf.childDown a b ha hb) _ v sub hvs hvN x hxs
+    refine ⟨?_, ?_, ?_, ?_, ?_, ?_⟩
+    · intro u hu
+      show (if (g.children h).contains u then none else g.parent u) = _
+      have : (g.children h).contains u = false := by
+        cases hcu : (g.children h).contains u with
+        | false => rfl
+        | true => have := hold u hcu; uomega
+      rw [this]
+      exact hf.parent u hu
+    · intro u hu
+      show upd g.children h [] u = _
+      rw [upd_other _ _ _ _ (by uomega)]
+      exact hf.children u hu
+    · intro u hu
+      show (if subs.flatten.contains u then none else g.owner u) = _
+      have : subs.flatten.contains u = false := by
+        cases hcu : subs.flatten.contains u with
+        | false => rfl
+        | true => have := hsubN u hcu; uomega
+      rw [this]
+      exact hf.owner u hu
+    · intro u p hu hp
+      have hp' : (if (g.children h).contains u then none else g.parent u) = some p := hp
+      split at hp'
+      · cases hp'
+      · exact hf.parentUp u p hu hp'
+    · intro u x hu hx
+      have hx' : x ∈ upd g.children h [] u := hx
+      by_cases e : u = h
+      · subst e; rw [upd_same] at hx'; cases hx'
+      · rw [upd_other _ _ _ _ e] at hx'
+        exact hf.childDown u x hu hx'
+    · intro u x hu hx
+      have hx' : (if subs.flatten.contains u then none else g.owner u) = some x := hx
+      split at hx'
+      · cases hx'
+      · exact hf.ownerUp u x hu hx'
+
+theorem HFrame.setChildren {N : Nat} {s g : G} (hf : HFrame N s g) (h : Uid) (l : List Uid) (hh : N ≤ h)
+    (hl : ∀ v ∈ l, N ≤ v) : HFrame N s (setChildren g h l).1 := by
+  unfold Pj.setChildren
+  split
+  · exact hf
+  · have h1 := hf.releaseChildren h l hh
+    rcases hrel : Pj.releaseChildren g h l with ⟨g1, e⟩
+    rw [hrel] at h1
+    cases e with
+    | some e => exact h1
+    | none => exact HFrame.foldSetParent h hh l g1 h1 hl
+
+/-! ### hierarchy setters do not touch links, link setters do not touch the hierarchy -/
+
+theorem setParentSome_links (g : G) (c q : Uid) :
+    (setParentSome g c q).1.preds = g.preds ∧ (setParentSome g c q).1.succs = g.succs := by
+  rcases setParentSome_cases g c q with h | ⟨sub, _, h⟩
+  · rw [h]; exact ⟨rfl, rfl⟩
+  · rw [h]
+    constructor
+    · rw [(appStep_fields _ _ _).2.1, (ownStep_fields _ _ _).2.2.1, (parStep_fields _ _ _).2.2.1,
+        (detachOld_fields g c).2.1]
+    · rw [(appStep_fields _ _ _).2.2.1, (ownStep_fields _ _ _).2.2.2.1, (parStep_fields _ _ _).2.2.2.1,
+        (detachOld_fields g c).2.2.1]
+
+theorem setParent_links (g : G) (c : Uid) (p : Option Uid) :
+    (setParent g c p).1.preds = g.preds ∧ (setParent g c p).1.succs = g.succs := by
+  unfold setParent
+  cases p with
+  | some q => exact setParentSome_links g c q
+  | none =>
+    show (setParentNone g c).1.preds = g.preds ∧ (setParentNone g c).1.succs = g.succs
+    unfold setParentNone
+    split
+    · exact setParentSome_links g c _
+    · exact ⟨(detachOld_fields g c).2.1, (detachOld_fields g c).2.2.1⟩
+
+theorem foldSetParent_links (h : Uid) : ∀ (l : List Uid) (g : G),
+    (foldSetParent g l h).1.preds = g.preds ∧ (foldSetParent g l h).1.succs = g.succs := by
+  intro l
+  induction l with
+  | nil => intro g; exact ⟨rfl, rfl⟩
+  | cons v vs ih =>
+    intro g
+    have h1 := setParent_links g v (some h)
+    unfold foldSetParent
+    rcases hsp : setParent g v (some h) with ⟨g', e⟩
+    rw [hsp] at h1
+    cases e with
+    | some e => exact h1
+    | none =>
+      obtain ⟨a, b⟩ := ih g'
+      exact ⟨a.trans h1.1, b.trans h1.2⟩
+
+theorem setChildren_links (g : G) (h : Uid) (l : List Uid) :
+    (setChildren g h l).1.preds = g.preds ∧ (setChildren g h l).1.succs = g.succs := by
+  unfold setChildren
+  split
+  · exact ⟨rfl, rfl⟩
+  · rcases releaseChildren_cases g h l with he | ⟨subs, _, he⟩
+    · rw [he]; exact ⟨rfl, rfl⟩
+    · rw [he]
+      exact foldSetParent_links h l _
+
+theorem setPreds_hier (g : G) (t : Uid) (l : List Uid) :
+    (setPreds g t l).1.parent = g.parent ∧ (setPreds g t l).1.children = g.children ∧
+    (setPreds g t l).1.owner = g.owner := by
+  unfold setPreds
+  split
+  · exact ⟨rfl, rfl, rfl⟩
+  · exact ⟨rfl, rfl, rfl⟩
+
+theorem setSuccs_hier (g : G) (t : Uid) (l : List Uid) :
+    (setSuccs g t l).1.parent = g.parent ∧ (setSuccs g t l).1.children = g.children ∧
+    (setSuccs g t l).1.owner = g.owner := by
+  unfold setSuccs
+  split
+  · exact ⟨rfl, rfl, rfl⟩
+  · exact ⟨rfl, rfl, rfl⟩
+
+theorem HFrame.congr {N : Nat} {s g g' : G} (hf : HFrame N s g) (hp : g'.parent = g.parent)
+    (hc : g'.children = g.children) (ho : g'.owner = g.owner) : HFrame N s g' := by
+  refine ⟨?_, ?_, ?_, ?_, ?_, ?_⟩
+  · rw [hp]; exact hf.parent
+  · rw [hc]; exact hf.children
+  · rw [ho]; exact hf.owner
+  · rw [hp]; exact hf.parentUp
+  · rw [hc]; exact hf.childDown
+  · rw [ho]; exact hf.ownerUp
+
+/-! ### link frame -/
+
+/-- members of the source WBS keep their link lists; the other old tasks only gain fresh entries -/
+structure LFrame (N : Nat) (s : G) (w : Uid) (g : G) : Prop where
+  member : ∀ u, u < N → s.owner u = some w → g.preds u = s.preds u ∧ g.succs u = s.succs u
+  outside : ∀ u, u < N → s.owner u ≠ some w →
+    (g.preds u).filter (fun x => decide (x < N)) = s.preds u ∧ (g.succs u).filter (fun x => decide (x < N)) = s.succs u
+
+theorem LFrame.congr {N : Nat} {s g g' : G} {w : Uid} (hf : LFrame N s w g) (hp : g'.preds = g.preds)
+    (hs : g'.succs = g.succs) : LFrame N s w g' := by
+  constructor
+  · rw [hp, hs]; exact hf.member
+  · rw [hp, hs]; exact hf.outside
+
+/-- the mirror update of a link setter, seen from an old uid -/
+theorem mirror_member (L S : List Uid) (c v : Uid) (lc old : List Uid) (hS : ∀ x ∈ S, x ≠ c) (hv : v ∉ lc) (hL : L = S) :
+    (if lc.contains v ∧ !(if old.contains v then L.filter (fun x => x != c) else L).contains c
+      then (if old.contains v then L.filter (fun x => x != c) else L) ++ [c]
+      else (if old.contains v then L.filter (fun x => x != c) else L)) = S := by
+  subst hL
+  have h1 : L.filter (fun x => x != c) = L := List.filter_eq_self.mpr (fun a ha => by simpa using hS a ha)
+  simp [h1, hv]
+
+theorem mirror_outside (N : Nat) (L S : List Uid) (c v : Uid) (lc old : List Uid) (hc : N ≤ c)
+    (hL : L.filter (fun x => decide (x < N)) = S) :
+    (if lc.contains v ∧ !(if old.contains v then L.filter (fun x => x != c) else L).contains c
+      then (if old.contains v then L.filter (fun x => x != c) else L) ++ [c]
+      else (if old.contains v then L.filter (fun x => x != c) else L)).filter (fun x => decide (x < N)) = S := by
+  have h1 : (L.filter (fun x => x != c)).filter (fun x => decide (x < N)) = S := by
+    rw [List.filter_filter, ← hL]
+    apply List.filter_congr
+    intro x _
+    by_cases hx : x < N
+    · have : x ≠ c := by uomega
+      simp [hx, this]
+    · simp [hx]
+  have h2 : ([c] : List Uid).filter (fun x => decide (x < N)) = [] := by
+    have : ¬ c < N := by uomega
+    simp [this]
+  split <;> split <;> simp [List.filter_append, h1, h2, hL]
+
+theorem LFrame.setPreds {N : Nat} {s g : G} {w : Uid} (hf : LFrame N s w g) (c : Uid) (l : List Uid) (hc : N ≤ c)
+    (hb : ∀ u v, v ∈ s.succs u → v < N)
+    (hl : ∀ v ∈ l, N ≤ v ∨ s.owner v ≠ some w) : LFrame N s w (setPreds g c l).1 := by
+  unfold Pj.setPreds
+  split
+  · exact hf
+  · constructor
+    · intro u hu hw
+      constructor
+      · show upd g.preds c l u = _
+        rw [upd_other _ _ _ _ (by uomega)]
+        exact (hf.member u hu hw).1
+      · refine mirror_member (g.succs u) (s.succs u) c u l (g.preds c) ?_ ?_ (hf.member u hu hw).2
+        · intro x hx
+          have := hb u x hx
+          uomega
+        · intro hul
+          rcases hl u hul with h | h
+          · uomega
+          · exact h hw
+    · intro u hu hw
+      constructor
+      · show (upd g.preds c l u).filter _ = _
+        rw [upd_other _ _ _ _ (by uomega)]
+        exact (hf.outside u hu hw).1
+      · exact mirror_outside N (g.succs u) (s.succs u) c u l (g.preds c) hc (hf.outside u hu hw).2
+
+theorem LFrame.setSuccs {N : Nat} {s g : G} {w : Uid} (hf : LFrame N s w g) (c : Uid) (l : List Uid) (hc : N ≤ c)
+    (hb : ∀ u v, v ∈ s.preds u → v < N)
+    (hl : ∀ v ∈ l, N ≤ v ∨ s.owner v ≠ some w) : LFrame N s w (setSuccs g c l).1 := by
+  unfold Pj.setSuccs
+  split
+  · exact hf
+  · constructor
+    · intro u hu hw
+      constructor
+      · refine mirror_member (g.preds u) (s.preds u) c u l (g.succs c) ?_ ?_ (hf.member u hu hw).1
+        · intro x hx
+          have := hb u x hx
+          uomega
+        · intro hul
+          rcases hl u hul with h | h
+          · uomega
+          · exact h hw
+      · show upd g.succs c l u = _
+        rw [upd_other _ _ _ _ (by uomega)]
+        exact (hf.member u hu hw).2
+    · intro u hu hw
+      constructor
+      · exact mirror_outside N (g.preds u) (s.preds u) c u l (g.succs c) hc (hf.outside u hu hw).1
+      · show (upd g.succs c l u).filter _ = _
+        rw [upd_other _ _ _ _ (by uomega)]
+        exact (hf.outside u hu hw).2
+
+/-! ### the two frame properties of `cloneSel` -/
+
+def CFrame (s : G) (w : Uid) (g : G) : Prop := HFrame s.n s g ∧ LFrame s.n s w g
+
+theorem IsClone.ge {s : G} {sel : List Uid} {c : Uid} (h : IsClone s sel c) : s.n ≤ c := by
+  obtain ⟨i, _, rfl⟩ := h
+  exact Nat.le_add_right _ _
+
+theorem OpKind.cframe {s : G} {w : Uid} {sel : List Uid} {f : G → G × Option Err} (k : OpKind s w sel f)
+    (hb : Bounded s) (g : G) (h : CFrame s w g) : CFrame s w (f g).1 := by
+  cases k with
+  | par c p hc hp =>
+    exact ⟨h.1.setParent c p hc.ge (fun q hq => (hp q hq).ge),
+      h.2.congr (setParent_links g c p).1 (setParent_links g c p).2⟩
+  | chi c l hc hl =>
+    have hcn : s.n ≤ c := by
+      rcases hc with hc | hc
+      · exact hc.ge
+      · rw [hc]; uomega
+    exact ⟨h.1.setChildren c l hcn (fun v hv => (hl v hv).ge),
+      h.2.congr (setChildren_links g c l).1 (setChildren_links g c l).2⟩
+  | prd c l hc hl =>
+    have hh := setPreds_hier g c l
+    refine ⟨h.1.congr hh.1 hh.2.1 hh.2.2, h.2.setPreds c l hc.ge (fun u v hv => (hb.succs u v hv).2) ?_⟩
+    intro v hv
+    rcases hl v hv with hv | hv
+    · exact Or.inl hv.ge
+    · exact Or.inr hv.2.1
+  | suc c l hc hl =>
+    have hh := setSuccs_hier g c l
+    refine ⟨h.1.congr hh.1 hh.2.1 hh.2.2, h.2.setSuccs c l hc.ge (fun u v hv => (hb.preds u v hv).2) ?_⟩
+    intro v hv
+    rcases hl v hv with hv | hv
+    · exact Or.inl hv.ge
+    · exact Or.inr hv.2.1
+
+theorem filter_lt_self (N : Nat) (l : List Uid) (h : ∀ x ∈ l, x < N) : l.filter (fun x => decide (x < N)) = l :=
+  List.filter_eq_self.mpr (fun a ha => by simpa using h a ha)
+
+theorem CFrame.self (s : G) (w : Uid) (hb : Bounded s) : CFrame s w s := by
+  refine ⟨⟨fun _ _ => rfl, fun _ _ => rfl, fun _ _ => rfl, ?_, ?_, ?_⟩, ⟨fun _ _ _ => ⟨rfl, rfl⟩, ?_⟩⟩
+  · intro u p hu hp
+    have := (hb.parent u p hp).1
+    uomega
+  · intro u x hu hx
+    have := (hb.children u x hx).1
+    uomega
+  · intro u x hu hx
+    have := (hb.owner u x hx).1
+    uomega
+  · intro u _ _
+    exact ⟨filter_lt_self _ _ (fun x hx => (hb.preds u x hx).2), filter_lt_self _ _ (fun x hx => (hb.succs u x hx).2)⟩
+
+theorem CFrame.extend (s : G) (w : Uid) (sel : List Uid) (hb : Bounded s) : CFrame s w (extend s sel) := by
+  obtain ⟨h1, h2⟩ := CFrame.self s w hb
+  refine ⟨⟨h1.parent, h1.children, ?_, h1.parentUp, h1.childDown, ?_⟩, ⟨h2.member, h2.outside⟩⟩
+  · intro u hu
+    rw [extend_owner, if_neg (by uomega)]
+  · intro u x hu hx
+    rw [extend_owner] at hx
+    split at hx
+    · cases hx; uomega
+    · exact h1.ownerUp u x hu hx
+
+theorem cloneSel_CFrame (s : G) (w : Uid) (roots : List Uid) (hi : Inv s) : CFrame s w (cloneSel s w roots).1 := by
+  cases h : roots.mapM (fun r => subtreeF s.children s.fuel r) with
+  | none => rw [cloneSel_none s w roots h]; exact CFrame.self s w hi.bnd
+  | some subs =>
+    rw [cloneSel_eq s w roots subs h]
+    refine seqOps_preserves (CFrame s w) _ _ ?_ (CFrame.extend s w _ hi.bnd)
+    intro f hf g hg
+    exact (cloneOps_kind s w roots _ hi f hf).cframe hi.bnd g hg
+
+theorem cloneSel_tid_lt (s : G) (w : Uid) (roots : List Uid) (u : Uid) (hu : u < s.n) :
+    (cloneSel s w roots).1.tid u = s.tid u := by
+  cases h : roots.mapM (fun r => subtreeF s.children s.fuel r) with
+  | none => rw [cloneSel_none s w roots h]
+  | some subs =>
+    rw [cloneSel_eq s w roots subs h]
+    show (seqOps id _ _).1.tid u = _
+    rw [(seqOps_n_tid s w roots _ _).2]
+    exact extend_tid_lt s _ u hu
+
+theorem cloneSel_sourceFrame (s : G) (w : Uid) (roots : List Uid) (hi : Inv s) :
+    sourceFrameB s (cloneSel s w roots).1 w = true := by
+  obtain ⟨hh, hl⟩ := cloneSel_CFrame s w roots hi
+  unfold sourceFrameB
+  rw [List.all_eq_true]
+  intro u hu
+  have hu' : u < s.n := List.mem_range.mp hu
+  by_cases hw : s.owner u = some w
+  · have := hl.member u hu' hw
+    simp [hw, cloneSel_tid_lt s w roots u hu', hh.parent u hu', hh.children u hu', hh.owner u hu', this.1, this.2]
+  · simp [hw]
+
+theorem cloneSel_outsideFrame (s : G) (w : Uid) (roots : List Uid) (hi : Inv s) :
+    outsideFrameB s (cloneSel s w roots).1 w = true := by
+  obtain ⟨hh, hl⟩ := cloneSel_CFrame s w roots hi
+  unfold outsideFrameB
+  rw [List.all_eq_true]
+  intro u hu
+  have hu' : u < s.n := List.mem_range.mp hu
+  by_cases hw : s.owner u = some w
+  · simp [hw]
+  · have := hl.outside u hu' hw
+    simp [hh.parent u hu', hh.children u hu', hh.owner u hu', this.1, this.2]
 
 end Pj
